@@ -34,7 +34,12 @@ func VPanic() Val       { return VL(VI(2)) }
 func VBad() Val         { return VL(VI(-9999)) }
 func VOpt(ok bool, v Val) Val { if ok { return VL(v) }; return VL() }
 
-func (v Val) U() uint64 { return v.I.Uint64() }
+func (v Val) U() uint64 {
+	if v.I.Sign() < 0 {
+		return 0 // as Z.to_N on the model side
+	}
+	return v.I.Uint64()
+}
 func (v Val) Int() int  { return int(v.I.Int64()) }
 
 func parseVals(toks []string, pos int) ([]Val, int) {
